@@ -4,7 +4,7 @@ import Driver.Util
 
 /-! Driver domain `linearize` (C11): decides whether a recorded call/return history of raw LRU
     operations is linearizable with respect to the sequential model `Wtf.Lru.step`
-    (`Wtf.Conc.linearizable?`, proved sound in Proofs/Conc.lean; TTL 0, so the clock is irrelevant).
+    (`Wtf.Conc.linearizable?`, proved sound and complete in Proofs/Conc.lean, `C11.checker_correct`; TTL 0, so the clock is irrelevant).
     `keys` outputs are compared as sorted lists (Go map order). -/
 namespace Driver.Linearize
 open Wtf.Lru Wtf.Conc Wtf.ConcLru
